@@ -47,10 +47,7 @@ Theorem C14_len_any : forall d its, enc_descriptor d = Ok its -> items_bytes_ok 
     bytes_of_items its = [Descriptor_Tag d mod 256; calc_descriptor_length d mod 256] ++ body /\
     calc_descriptor_length d = desc_size d mod 256 /\
     zlen body = (if desc_size d mod 256 =? 0 then 0 else desc_size d).
-Proof.
-  intros d its H Hok. destruct (enc_descriptor_bytes d its H Hok) as (body & E & Hl & _).
-  destruct (emitted_wrap d) as [Ec Ee]. exists body. rewrite <- Ee. auto.
-Qed.
+Proof. exact descriptor_any_len. Qed.
 Print Assumptions C14_len_any.
 
 (* a 256-byte body announces 0 and writes nothing; a 300-byte body announces 44 and writes 300 bytes *)
@@ -120,3 +117,252 @@ Example C14_tlv_overrun_example :
   | _ => False
   end.
 Proof. vm_compute. reflexivity. Qed.
+
+(* (c) round trips, one descriptor in a loop with its 12-bit length: parsing what writeDescriptorsWithLength emits
+   for d (whose Descriptor_Length and foreign bodies are arbitrary) yields the body of d under the header (tag,
+   size), and the iterator stops behind the loop.  Domains: numeric fields within their width (byte_range = 0..255),
+   bodies of 1..255 bytes.  (The byte strings written are compared with the independent Go reference encoder
+   by the implementation-side oracle on every run.) *)
+Theorem C14_rt_stream_identifier : forall d v out rest,
+  Descriptor_Tag d = 82 -> Descriptor_StreamIdentifier d = Some v ->
+  byte_range (DescriptorStreamIdentifier_ComponentTag v) ->
+  enc_descriptors_with_length [d] = Ok out -> items_bytes_ok out ->
+  parse_descriptors (new_iter (bytes_of_items out ++ rest)) =
+    Ok ([set_StreamIdentifier (desc_hdr 82 1) v], mk_iter (bytes_of_items out ++ rest) 5).
+Proof. exact rt_stream_identifier. Qed.
+Print Assumptions C14_rt_stream_identifier.
+
+Theorem C14_rt_data_stream_alignment : forall d v out rest,
+  Descriptor_Tag d = 6 -> Descriptor_DataStreamAlignment d = Some v ->
+  byte_range (DescriptorDataStreamAlignment_Type v) ->
+  enc_descriptors_with_length [d] = Ok out -> items_bytes_ok out ->
+  parse_descriptors (new_iter (bytes_of_items out ++ rest)) =
+    Ok ([set_DataStreamAlignment (desc_hdr 6 1) v], mk_iter (bytes_of_items out ++ rest) 5).
+Proof. exact rt_data_stream_alignment. Qed.
+Print Assumptions C14_rt_data_stream_alignment.
+
+Theorem C14_rt_user_defined : forall d out rest,
+  128 <= Descriptor_Tag d <= 254 -> 0 < zlen (Descriptor_UserDefined d) < 256 ->
+  enc_descriptors_with_length [d] = Ok out -> items_bytes_ok out ->
+  parse_descriptors (new_iter (bytes_of_items out ++ rest)) =
+    Ok ([set_UserDefined (desc_hdr (Descriptor_Tag d) (zlen (Descriptor_UserDefined d))) (Descriptor_UserDefined d)],
+        mk_iter (bytes_of_items out ++ rest) (4 + zlen (Descriptor_UserDefined d))).
+Proof. exact rt_user_defined. Qed.
+Print Assumptions C14_rt_user_defined.
+
+Theorem C14_rt_unknown : forall d v out rest,
+  0 <= Descriptor_Tag d < 256 -> is_user_defined (Descriptor_Tag d) = false -> ~ In (Descriptor_Tag d) typed_tags ->
+  Descriptor_Unknown d = Some v -> DescriptorUnknown_Tag v = Descriptor_Tag d -> 0 < zlen (DescriptorUnknown_Content v) < 256 ->
+  enc_descriptors_with_length [d] = Ok out -> items_bytes_ok out ->
+  parse_descriptors (new_iter (bytes_of_items out ++ rest)) =
+    Ok ([set_Unknown (desc_hdr (Descriptor_Tag d) (zlen (DescriptorUnknown_Content v))) v],
+        mk_iter (bytes_of_items out ++ rest) (4 + zlen (DescriptorUnknown_Content v))).
+Proof. exact rt_unknown. Qed.
+Print Assumptions C14_rt_unknown.
+
+Theorem C14_rt_network_name : forall d v out rest,
+  Descriptor_Tag d = 64 -> Descriptor_NetworkName d = Some v -> 0 < zlen (DescriptorNetworkName_Name v) < 256 ->
+  enc_descriptors_with_length [d] = Ok out -> items_bytes_ok out ->
+  parse_descriptors (new_iter (bytes_of_items out ++ rest)) =
+    Ok ([set_NetworkName (desc_hdr 64 (zlen (DescriptorNetworkName_Name v))) v],
+        mk_iter (bytes_of_items out ++ rest) (4 + zlen (DescriptorNetworkName_Name v))).
+Proof. exact rt_network_name. Qed.
+Print Assumptions C14_rt_network_name.
+
+Theorem C14_rt_private_data_indicator : forall d v out rest,
+  Descriptor_Tag d = 15 -> Descriptor_PrivateDataIndicator d = Some v ->
+  0 <= DescriptorPrivateDataIndicator_Indicator v < 2 ^ 32 ->
+  enc_descriptors_with_length [d] = Ok out -> items_bytes_ok out ->
+  parse_descriptors (new_iter (bytes_of_items out ++ rest)) =
+    Ok ([set_PrivateDataIndicator (desc_hdr 15 4) v], mk_iter (bytes_of_items out ++ rest) 8).
+Proof. exact rt_private_data_indicator. Qed.
+Print Assumptions C14_rt_private_data_indicator.
+
+Theorem C14_rt_private_data_specifier : forall d v out rest,
+  Descriptor_Tag d = 95 -> Descriptor_PrivateDataSpecifier d = Some v ->
+  0 <= DescriptorPrivateDataSpecifier_Specifier v < 2 ^ 32 ->
+  enc_descriptors_with_length [d] = Ok out -> items_bytes_ok out ->
+  parse_descriptors (new_iter (bytes_of_items out ++ rest)) =
+    Ok ([set_PrivateDataSpecifier (desc_hdr 95 4) v], mk_iter (bytes_of_items out ++ rest) 8).
+Proof. exact rt_private_data_specifier. Qed.
+Print Assumptions C14_rt_private_data_specifier.
+
+(* Bitrate is a multiple of 50 below 50 * 2^22 *)
+Theorem C14_rt_maximum_bitrate : forall d v k out rest,
+  Descriptor_Tag d = 14 -> Descriptor_MaximumBitrate d = Some v ->
+  DescriptorMaximumBitrate_Bitrate v = k * 50 -> 0 <= k < 2 ^ 22 ->
+  enc_descriptors_with_length [d] = Ok out -> items_bytes_ok out ->
+  parse_descriptors (new_iter (bytes_of_items out ++ rest)) =
+    Ok ([set_MaximumBitrate (desc_hdr 14 3) v], mk_iter (bytes_of_items out ++ rest) 7).
+Proof. exact rt_maximum_bitrate. Qed.
+Print Assumptions C14_rt_maximum_bitrate.
+
+Theorem C14_rt_registration : forall d v out rest,
+  Descriptor_Tag d = 5 -> Descriptor_Registration d = Some v ->
+  0 <= DescriptorRegistration_FormatIdentifier v < 2 ^ 32 ->
+  zlen (DescriptorRegistration_AdditionalIdentificationInfo v) < 252 ->
+  enc_descriptors_with_length [d] = Ok out -> items_bytes_ok out ->
+  parse_descriptors (new_iter (bytes_of_items out ++ rest)) =
+    Ok ([set_Registration (desc_hdr 5 (4 + zlen (DescriptorRegistration_AdditionalIdentificationInfo v))) v],
+        mk_iter (bytes_of_items out ++ rest) (8 + zlen (DescriptorRegistration_AdditionalIdentificationInfo v))).
+Proof. exact rt_registration. Qed.
+Print Assumptions C14_rt_registration.
+
+(* language code of exactly 3 bytes *)
+Theorem C14_rt_iso639 : forall d v out rest,
+  Descriptor_Tag d = 10 -> Descriptor_ISO639LanguageAndAudioType d = Some v ->
+  length (DescriptorISO639LanguageAndAudioType_Language v) = 3%nat ->
+  byte_range (DescriptorISO639LanguageAndAudioType_Type v) ->
+  enc_descriptors_with_length [d] = Ok out -> items_bytes_ok out ->
+  parse_descriptors (new_iter (bytes_of_items out ++ rest)) =
+    Ok ([set_ISO639LanguageAndAudioType (desc_hdr 10 4) v], mk_iter (bytes_of_items out ++ rest) 8).
+Proof. exact rt_iso639. Qed.
+Print Assumptions C14_rt_iso639.
+
+Theorem C14_rt_service : forall d v out rest,
+  Descriptor_Tag d = 72 -> Descriptor_Service d = Some v -> byte_range (DescriptorService_Type v) ->
+  3 + zlen (DescriptorService_Provider v) + zlen (DescriptorService_Name v) < 256 ->
+  enc_descriptors_with_length [d] = Ok out -> items_bytes_ok out ->
+  parse_descriptors (new_iter (bytes_of_items out ++ rest)) =
+    Ok ([set_Service (desc_hdr 72 (3 + zlen (DescriptorService_Provider v) + zlen (DescriptorService_Name v))) v],
+        mk_iter (bytes_of_items out ++ rest) (4 + (3 + zlen (DescriptorService_Provider v) + zlen (DescriptorService_Name v)))).
+Proof. exact rt_service. Qed.
+Print Assumptions C14_rt_service.
+
+(* all three constraint flags, both picture flags, 5 compatible-flag bits *)
+Theorem C14_rt_avc_video : forall d v out rest,
+  Descriptor_Tag d = 40 -> Descriptor_AVCVideo d = Some v ->
+  byte_range (DescriptorAVCVideo_ProfileIDC v) -> byte_range (DescriptorAVCVideo_LevelIDC v) ->
+  0 <= DescriptorAVCVideo_CompatibleFlags v < 32 ->
+  enc_descriptors_with_length [d] = Ok out -> items_bytes_ok out ->
+  parse_descriptors (new_iter (bytes_of_items out ++ rest)) =
+    Ok ([set_AVCVideo (desc_hdr 40 4) v], mk_iter (bytes_of_items out ++ rest) 8).
+Proof. exact rt_avc_video. Qed.
+Print Assumptions C14_rt_avc_video.
+
+(* the hypotheses of the round trips are satisfiable: a stream identifier whose struct Length is wrong *)
+Example C14_rt_example :
+  let d := set_StreamIdentifier (desc_hdr 82 77) {| DescriptorStreamIdentifier_ComponentTag := 200 |} in
+  exists out, enc_descriptors_with_length [d] = Ok out /\ items_bytes_ok out /\
+              bytes_of_items out = [240; 3; 82; 1; 200].
+Proof. eexists. split; [vm_compute; reflexivity|]. split; [repeat constructor|reflexivity]. Qed.
+
+(* (d) writing yields the reference encoding.  writeDescriptor emits tag, size, body (any tag, any value whose body
+   is 1..255 bytes); the bodies of the byte-aligned tags are the layouts of Spec/DescSpec.v (EN 300 468 6.2,
+   ISO/IEC 13818-1 2.6).  The remaining tags (bit-packed: AC-3, Enhanced AC-3, AVC, component, extended event,
+   extension, local time offset, maximum bitrate, teletext, VBI) are compared with the independent Go reference
+   encoder by the implementation-side oracle on every run. *)
+Theorem C14_write_descriptor : forall d bi, enc_descriptor_body d = Ok bi -> items_bytes_ok bi ->
+  0 <= Descriptor_Tag d < 256 -> 0 < desc_size d < 256 ->
+  res_map bytes_of_items (enc_descriptor d) = Ok ([Descriptor_Tag d; desc_size d] ++ bytes_of_items bi).
+Proof. exact write_descriptor_bytes. Qed.
+Print Assumptions C14_write_descriptor.
+
+Theorem C14_write_bodies :
+  (forall v, byte_range (DescriptorStreamIdentifier_ComponentTag v) -> bytes_of_items (enc_stream_identifier v) = ref_stream_identifier v) /\
+  (forall v, byte_range (DescriptorDataStreamAlignment_Type v) -> bytes_of_items (enc_data_stream_alignment v) = ref_data_stream_alignment v) /\
+  (forall v, bytes_ok (DescriptorRegistration_AdditionalIdentificationInfo v) -> bytes_of_items (enc_registration v) = ref_registration v) /\
+  (forall v, bytes_of_items (enc_private_data_indicator v) = ref_private_data_indicator v) /\
+  (forall v, bytes_of_items (enc_private_data_specifier v) = ref_private_data_specifier v) /\
+  (forall v, length (DescriptorISO639LanguageAndAudioType_Language v) = 3%nat -> bytes_ok (DescriptorISO639LanguageAndAudioType_Language v) ->
+             byte_range (DescriptorISO639LanguageAndAudioType_Type v) -> bytes_of_items (enc_iso639 v) = ref_iso639 v) /\
+  (forall v, bytes_ok (DescriptorNetworkName_Name v) -> bytes_of_items (enc_network_name v) = ref_network_name v) /\
+  (forall v, bytes_ok (DescriptorUnknown_Content v) -> bytes_of_items (enc_unknown v) = ref_unknown v) /\
+  (forall v, byte_range (DescriptorService_Type v) -> bytes_ok (DescriptorService_Provider v) -> bytes_ok (DescriptorService_Name v) ->
+             zlen (DescriptorService_Provider v) < 256 -> zlen (DescriptorService_Name v) < 256 -> bytes_of_items (enc_service v) = ref_service v) /\
+  (forall v, length (DescriptorShortEvent_Language v) = 3%nat -> bytes_ok (DescriptorShortEvent_Language v) ->
+             bytes_ok (DescriptorShortEvent_EventName v) -> bytes_ok (DescriptorShortEvent_Text v) ->
+             zlen (DescriptorShortEvent_EventName v) < 256 -> zlen (DescriptorShortEvent_Text v) < 256 ->
+             bytes_of_items (enc_short_event v) = ref_short_event v) /\
+  (forall v, Forall (fun it => length (DescriptorParentalRatingItem_CountryCode it) = 3%nat /\ bytes_ok (DescriptorParentalRatingItem_CountryCode it) /\
+                               byte_range (DescriptorParentalRatingItem_Rating it)) (DescriptorParentalRating_Items v) ->
+             bytes_of_items (enc_parental_rating v) = ref_parental_rating v) /\
+  (forall v, Forall (fun it => length (DescriptorSubtitlingItem_Language it) = 3%nat /\ bytes_ok (DescriptorSubtitlingItem_Language it) /\
+                               byte_range (DescriptorSubtitlingItem_Type it)) (DescriptorSubtitling_Items v) ->
+             bytes_of_items (enc_subtitling v) = ref_subtitling v) /\
+  (forall v, Forall (fun it => 0 <= DescriptorContentItem_ContentNibbleLevel1 it < 16 /\ 0 <= DescriptorContentItem_ContentNibbleLevel2 it < 16 /\
+                               byte_range (DescriptorContentItem_UserByte it)) (DescriptorContent_Items v) ->
+             bytes_of_items (enc_content v) = ref_content v).
+Proof.
+  repeat split.
+  - exact write_stream_identifier. - exact write_data_stream_alignment. - exact write_registration.
+  - exact write_private_data_indicator. - exact write_private_data_specifier. - exact write_iso639.
+  - exact write_network_name. - exact write_unknown. - exact write_service. - exact write_short_event.
+  - exact write_parental_rating. - exact write_subtitling. - exact write_content.
+Qed.
+Print Assumptions C14_write_bodies.
+
+(* (e) loops of 0..n descriptors of mixed tags.  entry_rt d d': the tag is a byte, the body fits 255 bytes, and
+   either the body is empty and d' is the bare header (S7: an empty list or name comes back as "no body") or the
+   body-level round trip body_rt of d's tag holds.  Parsing what writeDescriptorsWithLength emits for the whole loop
+   yields the entry-wise results, and the iterator stops exactly 2 + loop_size bytes on, whatever follows. *)
+Theorem C14_loop_roundtrip : forall ds ds' out rest,
+  enc_descriptors_with_length ds = Ok out -> items_bytes_ok out -> loop_size ds < 4096 ->
+  Forall2 entry_rt ds ds' ->
+  parse_descriptors (new_iter (bytes_of_items out ++ rest)) = Ok (ds', mk_iter (bytes_of_items out ++ rest) (2 + loop_size ds)).
+Proof. exact loop_roundtrip. Qed.
+Print Assumptions C14_loop_roundtrip.
+
+(* the tags for which body_rt is proved, with their domains (any Descriptor_Length, any foreign bodies in d) *)
+Theorem C14_body_roundtrips :
+  (forall d v, Descriptor_Tag d = 82 -> Descriptor_StreamIdentifier d = Some v -> byte_range (DescriptorStreamIdentifier_ComponentTag v) ->
+     body_rt d (set_StreamIdentifier (desc_hdr 82 1) v)) /\
+  (forall d v, Descriptor_Tag d = 6 -> Descriptor_DataStreamAlignment d = Some v -> byte_range (DescriptorDataStreamAlignment_Type v) ->
+     body_rt d (set_DataStreamAlignment (desc_hdr 6 1) v)) /\
+  (forall d, 128 <= Descriptor_Tag d <= 254 -> 0 < zlen (Descriptor_UserDefined d) < 256 ->
+     body_rt d (set_UserDefined (desc_hdr (Descriptor_Tag d) (zlen (Descriptor_UserDefined d))) (Descriptor_UserDefined d))) /\
+  (forall d v, Descriptor_Tag d = 64 -> Descriptor_NetworkName d = Some v -> 0 < zlen (DescriptorNetworkName_Name v) < 256 ->
+     body_rt d (set_NetworkName (desc_hdr 64 (zlen (DescriptorNetworkName_Name v))) v)) /\
+  (forall d v, 0 <= Descriptor_Tag d < 256 -> is_user_defined (Descriptor_Tag d) = false -> ~ In (Descriptor_Tag d) typed_tags ->
+     Descriptor_Unknown d = Some v -> DescriptorUnknown_Tag v = Descriptor_Tag d -> 0 < zlen (DescriptorUnknown_Content v) < 256 ->
+     body_rt d (set_Unknown (desc_hdr (Descriptor_Tag d) (zlen (DescriptorUnknown_Content v))) v)) /\
+  (forall d v, Descriptor_Tag d = 15 -> Descriptor_PrivateDataIndicator d = Some v -> 0 <= DescriptorPrivateDataIndicator_Indicator v < 2 ^ 32 ->
+     body_rt d (set_PrivateDataIndicator (desc_hdr 15 4) v)) /\
+  (forall d v, Descriptor_Tag d = 95 -> Descriptor_PrivateDataSpecifier d = Some v -> 0 <= DescriptorPrivateDataSpecifier_Specifier v < 2 ^ 32 ->
+     body_rt d (set_PrivateDataSpecifier (desc_hdr 95 4) v)) /\
+  (forall d v k, Descriptor_Tag d = 14 -> Descriptor_MaximumBitrate d = Some v -> DescriptorMaximumBitrate_Bitrate v = k * 50 -> 0 <= k < 2 ^ 22 ->
+     body_rt d (set_MaximumBitrate (desc_hdr 14 3) v)) /\
+  (forall d v, Descriptor_Tag d = 5 -> Descriptor_Registration d = Some v -> 0 <= DescriptorRegistration_FormatIdentifier v < 2 ^ 32 ->
+     zlen (DescriptorRegistration_AdditionalIdentificationInfo v) < 252 ->
+     body_rt d (set_Registration (desc_hdr 5 (4 + zlen (DescriptorRegistration_AdditionalIdentificationInfo v))) v)) /\
+  (forall d v, Descriptor_Tag d = 10 -> Descriptor_ISO639LanguageAndAudioType d = Some v ->
+     length (DescriptorISO639LanguageAndAudioType_Language v) = 3%nat -> byte_range (DescriptorISO639LanguageAndAudioType_Type v) ->
+     body_rt d (set_ISO639LanguageAndAudioType (desc_hdr 10 4) v)) /\
+  (forall d v, Descriptor_Tag d = 72 -> Descriptor_Service d = Some v -> byte_range (DescriptorService_Type v) ->
+     3 + zlen (DescriptorService_Provider v) + zlen (DescriptorService_Name v) < 256 ->
+     body_rt d (set_Service (desc_hdr 72 (3 + zlen (DescriptorService_Provider v) + zlen (DescriptorService_Name v))) v)) /\
+  (forall d v, Descriptor_Tag d = 40 -> Descriptor_AVCVideo d = Some v -> byte_range (DescriptorAVCVideo_ProfileIDC v) ->
+     byte_range (DescriptorAVCVideo_LevelIDC v) -> 0 <= DescriptorAVCVideo_CompatibleFlags v < 32 ->
+     body_rt d (set_AVCVideo (desc_hdr 40 4) v)).
+Proof.
+  repeat split.
+  - exact brt_stream_identifier. - exact brt_data_stream_alignment. - exact brt_user_defined. - exact brt_network_name.
+  - exact brt_unknown. - exact brt_private_data_indicator. - exact brt_private_data_specifier. - exact brt_maximum_bitrate.
+  - exact brt_registration. - exact brt_iso639. - exact brt_service. - exact brt_avc_video.
+Qed.
+Print Assumptions C14_body_roundtrips.
+
+(* a mixed loop inside the hypotheses: stream identifier (struct Length wrong), an empty content descriptor
+   (zero items: comes back as the bare header), a user-defined descriptor; 0xAB follows the loop *)
+Definition ex_mixed : list Descriptor :=
+  [ set_StreamIdentifier (desc_hdr 82 99) {| DescriptorStreamIdentifier_ComponentTag := 7 |};
+    set_Content (desc_hdr 84 3) {| DescriptorContent_Items := [] |};
+    set_UserDefined (desc_hdr 200 0) [1; 2; 3] ].
+Definition ex_mixed_parsed : list Descriptor :=
+  [ set_StreamIdentifier (desc_hdr 82 1) {| DescriptorStreamIdentifier_ComponentTag := 7 |};
+    desc_hdr 84 0;
+    set_UserDefined (desc_hdr 200 3) [1; 2; 3] ].
+Example C14_loop_example : Forall2 entry_rt ex_mixed ex_mixed_parsed /\
+  exists out, enc_descriptors_with_length ex_mixed = Ok out /\
+    bytes_of_items out = [240; 10; 82; 1; 7; 84; 0; 200; 3; 1; 2; 3] /\
+    parse_descriptors (new_iter (bytes_of_items out ++ [171])) = Ok (ex_mixed_parsed, mk_iter (bytes_of_items out ++ [171]) 12).
+Proof.
+  split.
+  - apply Forall2_cons; [|apply Forall2_cons; [|apply Forall2_cons; [|apply Forall2_nil]]].
+    + split; [cbv; intuition discriminate|]. split; [reflexivity|]. right. split; [reflexivity|].
+      apply brt_stream_identifier; [reflexivity|reflexivity|cbv; intuition discriminate].
+    + split; [cbv; intuition discriminate|]. split; [reflexivity|]. left. split; reflexivity.
+    + split; [cbv; intuition discriminate|]. split; [reflexivity|]. right. split; [reflexivity|].
+      apply (brt_user_defined (set_UserDefined (desc_hdr 200 0) [1; 2; 3])); cbv; intuition discriminate.
+  - eexists. split; [vm_compute; reflexivity|]. split; vm_compute; reflexivity.
+Qed.
